@@ -84,13 +84,22 @@ impl Content {
 					s.push_str(&format!("(import '{}') + ", fix(sp)));
 				}
 				s.push_str(&format!("{{ id: \"{cid}\", payload: {payload}"));
-				for l in lazy {
+				for (i, l) in lazy.iter().enumerate() {
 					let kw = match l.kind {
 						Kind::Code => "import",
 						Kind::Str => "importstr",
 						Kind::Bin => "importbin",
 					};
-					s.push_str(&format!(", {}: {kw} '{}'", l.field, fix(&l.spelling)));
+					let imp = format!("{kw} '{}'", fix(&l.spelling));
+					// the same lazy import in different syntactic positions (a tool that lists imports statically has
+					// to find all of them; the evaluator's behaviour is the same)
+					let expr = match (payload.unsigned_abs() as usize + i) % 4 {
+						0 => imp,
+						1 => format!("(function(name, cfg={imp}) cfg)(0)"),
+						2 => format!("(local g(a, b={imp}) = b; g(0))"),
+						_ => format!("{{ m(k, v={imp}):: v }}.m(0)"),
+					};
+					s.push_str(&format!(", {}: {expr}", l.field));
 				}
 				s.push_str(" })\n");
 				s.into_bytes()
@@ -1581,6 +1590,14 @@ impl Gen<'_> {
 					forms.push(format!("{aname}/{name}"));
 				}
 				forms.push(format!("{a}/{name}"));
+			}
+			// `..` right after a directory symlink: the OS continues from the link's *target*, so this names the
+			// parent of the target directory, not the directory the link sits in (whatever that one contains)
+			if DIRS.contains(&t.as_str()) && parent(a) == from_dir && (tdir == parent(t) || tdir == from_dir) {
+				let aname = a.rsplit('/').next().unwrap_or("");
+				forms.push(format!("{aname}/../{name}"));
+				forms.push(format!("{aname}/../{name}"));
+				forms.push(format!("./{aname}/../{name}"));
 			}
 		}
 		if from_dir != "/" {
